@@ -33,12 +33,14 @@ FUNCTIONS = [
     "ramses_rf.system.faultlog:FaultLog.latest_event",
     "ramses_rf.system.faultlog:FaultLog.latest_fault",
     "ramses_rf.system.faultlog:FaultLog.active_faults",
+    "ramses_rf.system.faultlog:FaultLog.get_faultlog",
+    "ramses_rf.system.faultlog:FaultLog._hack_pkt_idx",
 ]
 BOUNDS = {
     "quick": {"believed positions": "0..N-1, N<=4, each present/absent", "controller log depth": "N+2", "read-through": "n<=3"},
     "thorough": {"believed positions": "0..N-1, N<=6", "controller log depth": "N+2", "read-through": "n<=4"},
 }
-OUTSIDE = ["log deeper than the bound / entries dropping off the 64-entry end", "get_faultlog's request loop and _hack_pkt_idx (needs the send path: C06/C07)",
+OUTSIDE = ["log deeper than the bound / entries dropping off the 64-entry end", "the send path under get_faultlog (C06/C07): each request is answered by the scripted controller",
            "equal time stamps for distinct entries (the code documents the stamp as the unique identifier)"]
 STUBS = ["Message -> duck-typed object (verb, code, payload dict); FaultLogEntry.from_msg returns a real FaultLogEntry carrying the symbolic stamp"]
 ASSUMPTIONS = ["time stamps compare as the integers they are order-isomorphic to", "the pre-state satisfies Inv(M, C) - checked to be re-established by every step (induction)"]
@@ -121,6 +123,18 @@ def _check_views(ctx, fl, label):
         return None
 
 
+def _check_view_is_map(ctx, fl, label):
+    """the public view shows exactly the believed map (positions and entries)"""
+    try:
+        v = fl.faultlog
+    except Exception:  # noqa: BLE001  (reported by views-do-not-raise)
+        return
+    ctx.check(sorted(v) == sorted(fl._map), f"{label}:view-shows-the-current-map", info=f"{sorted(v)} vs {sorted(fl._map)}")
+    for k in fl._map:
+        if k in v:
+            ctx.check(v[k].timestamp == fl._map[k], f"{label}:view-shows-the-current-map")
+
+
 def _check_inv(ctx, fl, C, label, strict_positions=True):
     import z3
     import symx
@@ -152,8 +166,13 @@ def h_step(ctx, N):
         msg = _Msg(verb, idx, _entry(C[idx], states[idx]))
     else:
         msg = _Msg(verb, idx, None)  # null entry: nothing at or below idx
+    try:
+        fl.faultlog  # the view has been read before (whatever it caches must not survive the change)
+    except Exception:  # noqa: BLE001
+        pass
     fl.handle_msg(msg)
     _check_inv(ctx, fl, C, "step", strict_positions=False)
+    _check_view_is_map(ctx, fl, "step")
     if idx < D:
         got = fl._map.get(idx)
         ctx.check(got is not None and (got == C[idx]), "step:reported-entry-at-reported-position")
@@ -218,9 +237,136 @@ def h_announce(ctx, N):
     return (k, len(fl._map))
 
 
+class _XEnv:
+    """selectors for the read-through scenario: symbolic (check) / from a counterexample (replay)"""
+
+    def __init__(self, ctx=None, cex=None):
+        self.ctx, self.cex, self.symbolic, self.failed = ctx, cex, ctx is not None, []
+
+    def choice(self, name, options):
+        if self.symbolic:
+            import symx
+
+            return symx.choice(self.ctx, name, options)
+        v = self.cex.get(name)
+        return next((o for o in options if o == v or str(o) == str(v)), options[0])
+
+    def flag(self, name):
+        if self.symbolic:
+            import symx
+
+            return symx.flag(self.ctx, name)
+        return bool(self.cex.get(name, False))
+
+    def check(self, cond, label, info=None):
+        if self.symbolic:
+            return self.ctx.check(cond, label, info)
+        if not cond:
+            self.failed.append((label, info))
+        return bool(cond)
+
+
+def run_getlog(env):
+    """the real get_faultlog request loop (incl. _hack_pkt_idx for null replies) against a scripted controller:
+    a read-through, then new entries whose announcements are delivered or lost, then another read-through"""
+    import asyncio
+    from datetime import datetime as _dt, timedelta as _td
+
+    from ramses_rf.system import faultlog as FL
+    from ramses_tx.command import Command
+    from ramses_tx.message import Message
+    from ramses_tx.packet import Packet
+    from symx.vloop import VLoop, running
+
+    loop = VLoop(0)
+    ctl, hgi = "01:145038", "18:006402"
+    t0 = _dt(2023, 5, 1, 10, 0, 0)
+    NULL = "000000B0000000000000000000007FFFFF7000000000"
+
+    def entry_payload(k, idx):
+        from ramses_tx.const import FaultDeviceClass, FaultState, FaultType
+
+        c = Command._put_system_log_entry(ctl, FaultState.FAULT if k % 2 else FaultState.RESTORE, FaultType.COMMS_FAULT, FaultDeviceClass.ACTUATOR, device_id="04:111111", domain_idx="00", _log_idx=idx, timestamp=t0 + _td(minutes=7 * k))
+        return c.payload
+
+    log = []  # newest first: list of entry numbers k
+
+    def rp(idx):
+        pl = entry_payload(log[idx], idx) if idx < len(log) else NULL
+        return Packet.from_port(t0, f"045 RP --- {ctl} {hgi} --:------ 0418 022 {pl}")
+
+    class Gwy:
+        _loop = loop
+
+        async def async_send_cmd(self, cmd, **kw):
+            await asyncio.sleep(0.01)
+            return rp(int(cmd.payload[4:6], 16))
+
+    tcs = type("T", (), {"id": ctl, "_gwy": Gwy()})()
+    fl = FL.FaultLog(tcs)
+    n1 = env.choice("n1", [0, 1, 2, 4])
+    for k in range(n1):
+        log.insert(0, k)
+    lim1 = env.choice("limit1", [1, 3, 8])
+    lim2 = env.choice("limit2", [3, 8])
+    m = env.choice("new_entries", [0, 1, 2])
+    problems = []
+
+    def stamp(k):
+        from ramses_tx.helpers import hex_to_dts, hex_from_dts
+
+        return hex_to_dts(hex_from_dts(t0 + _td(minutes=7 * k)))
+
+    def compare(tag, limit):
+        try:
+            view = fl.faultlog
+            fl.latest_event, fl.latest_fault, fl.active_faults
+        except Exception as e:  # noqa: BLE001
+            problems.append(f"{tag}: a view raised {type(e).__name__}: {e}")
+            return
+        upto = min(limit, len(log))
+        want = {i: stamp(log[i]) for i in range(upto)}
+        got = {i: view[i].timestamp for i in view if i < upto}
+        if got != want:
+            problems.append(f"{tag}: view over the range read {got} != controller log {want}")
+        keys = sorted(view)
+        ts = [view[i].timestamp for i in keys]
+        if ts != sorted(ts, reverse=True) or len(set(ts)) != len(ts):
+            problems.append(f"{tag}: view not newest-first / has duplicates: {dict(zip(keys, ts))}")
+        if any(t not in {stamp(k) for k in log} for t in ts):
+            problems.append(f"{tag}: view shows an entry the controller never reported")
+
+    async def main():
+        await fl.get_faultlog(limit=lim1)
+        compare("first read-through", lim1)
+        for j in range(m):
+            k = n1 + j
+            log.insert(0, k)
+            if not env.flag(f"announcement_lost{j}"):
+                pkt = Packet.from_port(t0, f"045  I --- {ctl} --:------ {ctl} 0418 022 {entry_payload(k, 0)}")
+                fl.handle_msg(Message(pkt))
+        await fl.get_faultlog(limit=lim2)
+        compare("second read-through", lim2)
+
+    with running(loop):
+        task = loop.create_task(main())
+    loop.run(until=task)
+    if task.exception() is not None:
+        problems.append(f"get_faultlog raised {type(task.exception()).__name__}: {task.exception()}")
+    return problems, (n1, lim1, m, lim2)
+
+
+def h_getlog(ctx):
+    env = _XEnv(ctx=ctx)
+    problems, shape = run_getlog(env)
+    env.check(not problems, "getlog:read-through-reproduces-the-controller-log", info="; ".join(problems)[:300])
+    return shape
+
+
 def queries(tier, seed):
     thorough = tier == "thorough"
     qs = []
+    qs.append(Query("getlog", h_getlog, {"h": "getlog"}, group="getlog", max_secs=600, max_paths=50_000, weight=20, split_depth=4))
     Ns = (1, 2, 3, 4) if not thorough else (1, 2, 3, 4, 5, 6)
     for N in Ns:
         qs.append(Query(f"step[N={N}]", lambda c, N=N: h_step(c, N), {"h": "step", "N": N}, group="step", max_secs=600 if thorough else 240, max_paths=400_000, weight=N, split_depth=(6 if N >= 3 else None)))
@@ -257,6 +403,10 @@ def replay(item):
     from ramses_tx.const import FaultState
 
     cex, prm = item["cex"], item["params"]
+    if prm["h"] == "getlog":
+        problems, shape = run_getlog(_XEnv(cex=cex))
+        return {"reproduced": bool(problems), "observed": f"log of {shape[0]} entries, get_faultlog(limit={shape[1]}), {shape[2]} new entries (announcements lost: {[k for k in cex if k.startswith('announcement_lost') and cex[k]]}), get_faultlog(limit={shape[3]}): " + "; ".join(problems)[:600],
+                "signature": "faultlog getlog: read-through-reproduces-the-controller-log"}
     FL.FaultLogEntry.from_msg = classmethod(lambda cls, msg: msg._entry)
 
     def ts(n):
@@ -304,7 +454,17 @@ def replay(item):
             idx = cex["idx"]
             verb = I_ if str(cex.get("verb")).strip() == "I" else RP
             msg = _Msg(verb, idx, _entry(C[idx], states[idx])) if idx < D else _Msg(verb, idx, None)
+            try:
+                fl.faultlog
+            except Exception:  # noqa: BLE001
+                pass
             fl.handle_msg(msg)
+            try:
+                v = fl.faultlog
+                if sorted(v) != sorted(fl._map) or any(v[k].timestamp != fl._map[k] for k in fl._map if k in v):
+                    problems.append(f"view {sorted(v)} is not the current map {sorted(fl._map)}")
+            except Exception:  # noqa: BLE001
+                pass
             inv(C)
             if idx < D and fl._map.get(idx) != C[idx]:
                 problems.append(f"reported entry not at position {idx}")
